@@ -39,6 +39,46 @@ SPAN_PROV = {
     'stream::Stream::span_from': ['Range{start: arg2.start, end: AddWithOverflow(len(arg1.tokens), len(arg1.iter)).0}'],
 }
 
+# What the concrete token reader of each input does to its cursor (rule READER-SIB, absolute part).  Reviewed against the source:
+# index cursors advance by one; &str / Graphemes by the byte length of the item decoded AT the cursor; token-span inputs advance the
+# inner cursor through the inner reader and record Some(END of the token's span) - the value Input::span later uses as the end.
+READER_EFFECTS = {
+    '&str': ['writes cursor <- Add+RangeFrom+chars+get_unchecked+len_utf8+next+unwrap_unchecked'],
+    '&[T]': ['writes cursor <- Add+const'],
+    '&[T; N]': ['writes cursor <- Add+const'],
+    'input::MappedInput': ['writes cursor.1 <- Some+call+end+tuple', 'passes &mut cursor.0 to next*'],
+    'input::MappedSpan': ['passes &mut cursor. to next*'],
+    'input::WithContext': ['passes &mut cursor. to next*'],
+    'input::IoInput': ['writes cursor <- Add+const'],
+    'stream::Stream': ['writes cursor <- Add+const'],
+    'stream::IterInput': ['writes cursor.1 <- Add+const', 'writes cursor.2 <- Some+end', 'passes &mut cursor.0 to next*'],
+    '&text::unicode::Graphemes': ['writes cursor <- Add+RangeFrom+as_str+const+get_unchecked+graphemes+len+next+unwrap_unchecked'],
+    'bytes::Bytes': ['writes cursor <- Add+const'],
+}
+
+# SPAN-IMPL: the Span trait implementations and span conversions (src/span.rs), reviewed: accessors return their own bound,
+# constructors keep (start, end) in order, defaults are built from the accessors of the right bound.
+SPAN_IMPL = {
+    'span::Span::to_end': 'new(context(arg1), Range{start: end(arg1), end: end(arg1)})',
+    'span::Span::union': 'new(context(arg1), Range{start: min(start(arg1), start(arg2)), end: max(end(arg1), end(arg2))})',
+    'span::SimpleSpan::into_range': 'Range{start: arg1.start, end: arg1.end}',
+    'span::SimpleSpan[std::convert::From]::from': 'SimpleSpan{start: arg1.start, end: arg1.end, context: tuple{}}',
+    'std::ops::Range[std::convert::From]::from': 'Range{start: arg1.start, end: arg1.end}',
+    'span::SimpleSpan[std::iter::IntoIterator]::into_iter': 'Range{start: arg1.start, end: arg1.end}',
+    'span::SimpleSpan[span::Span]::context': 'arg1.context',
+    'span::SimpleSpan[span::Span]::end': 'arg1.end',
+    'span::SimpleSpan[span::Span]::new': 'SimpleSpan{start: arg2.start, end: arg2.end, context: arg1}',
+    'span::SimpleSpan[span::Span]::start': 'arg1.start',
+    '(C, S)[span::Span]::context': 'arg1.0',
+    '(C, S)[span::Span]::end': 'end(arg1.1)',
+    '(C, S)[span::Span]::new': 'tuple{0: arg1, 1: new(tuple{}, arg2)}',
+    '(C, S)[span::Span]::start': 'start(arg1.1)',
+    'std::ops::Range[span::Span]::context': 'const ()',
+    'std::ops::Range[span::Span]::end': 'arg1.end',
+    'std::ops::Range[span::Span]::new': 'arg2',
+    'std::ops::Range[span::Span]::start': 'arg1.start',
+}
+
 STREAM_ITER_USERS = {
     "stream::Stream[input::ValueInput]::next": {"mutborrow"},          # the refill
     "stream::Stream[input::ExactSizeInput]::span_from": {"read"},       # iter.len() through &self
